@@ -128,6 +128,7 @@ Bad(qq, c, r, v, same) ==
                              ELSE IF mr = "Empty" THEN {} ELSE IF mr = "Disc" THEN {"C07"}
                              ELSE IF c.ov THEN {} ELSE {"C06"}
            [] r = "Disc"  -> IF mr = "Disc" THEN {} ELSE {"C07"}
+           [] r = "End"   -> IF mr \in {"Empty", "Disc"} THEN {} ELSE IF c.ov THEN {} ELSE {"C06"}
            [] OTHER -> {"C09"}
     [] c.op = "unsub" -> IF Apply(qq, c)[2] = r THEN {} ELSE {"C11"}
     [] OTHER -> IF Apply(qq, c)[2] = r THEN {} ELSE {"C09"}
